@@ -48,6 +48,13 @@ inductive Local where
   | other
   deriving DecidableEq, Repr
 
+/-- WHEN `_log` obtains the calling thread / process object: on every call (`x = current_x()` in
+`_log`'s own body), once per thread (kept in `core.thread_locals`), once at import (a module-level
+object), or in a way the extractor does not understand. -/
+inductive Lookup where
+  | perCall | cachedPerThread | atImport | other
+  deriving DecidableEq, Repr
+
 /-- How a public logging method derives the options it hands to `_log` from `self._options`:
 `selfOptions` = `__self._options` itself; `prependDrop p d` = a `p`-tuple of constants followed by
 `__self._options[d:]` (the shape of `exception()`: `(True,) + __self._options[1:]`). -/
